@@ -39,6 +39,8 @@ def cmd_check(prop, tier):
         return mod.run_check(tier, seed, known)
     plan = _scale_plan(mod.PLAN[tier])
     budget = float(os.environ.get("VERIF_BUDGET", mod.BUDGET[tier]))
+    mod.META["planned_runs"] = {"plan": {f: n for f, n, _ in plan}, "wall_budget_s": budget,
+                                "note": "runs stop being dealt when the wall budget is exceeded; 'evaluations' is what was actually executed"}
     results, herrs, wall = core.run_batch(prop, plan, seed, tier, budget)
     return finish(prop, tier, seed, mod, results, herrs, time.monotonic() - t0, known)
 
